@@ -372,6 +372,12 @@ class Encoder(object):
         self.append_non_negative_binary_integer(value,
                                                 8 * number_of_bytes)
 
+    def append_semi_constrained_whole_number(self, value):
+        number_of_bytes = max((value.bit_length() + 7) // 8, 1)
+        self.append_length_determinant(number_of_bytes)
+        self.append_non_negative_binary_integer(value,
+                                                8 * number_of_bytes)
+
     def __repr__(self):
         return format_bytes(self.as_bytearray())
 
@@ -536,6 +542,11 @@ class Decoder(object):
             decoded -= 1
 
         return decoded
+
+    def read_semi_constrained_whole_number(self):
+        length = self.read_length_determinant()
+
+        return self.read_non_negative_binary_integer(8 * length)
 
 
 class Type(BaseType):
@@ -1019,6 +1030,10 @@ class Integer(Type):
         self.has_extension_marker = has_extension_marker
 
         if minimum == 'MIN' or maximum == 'MAX':
+            if minimum != 'MIN':
+                # Semi-constrained: only the lower bound is PER-visible.
+                self.minimum = minimum
+
             return
 
         self.minimum = minimum
@@ -1044,7 +1059,12 @@ class Integer(Type):
 
         if self.number_of_bits is None:
             encoder.align()
-            encoder.append_unconstrained_whole_number(data)
+
+            if self.minimum is None:
+                encoder.append_unconstrained_whole_number(data)
+            else:
+                encoder.append_semi_constrained_whole_number(
+                    data - self.minimum)
         else:
             if self.number_of_indefinite_bits is None:
                 number_of_bits = self.number_of_bits
@@ -1073,7 +1093,11 @@ class Integer(Type):
         if self.number_of_bits is None:
             decoder.align()
 
-            return decoder.read_unconstrained_whole_number()
+            if self.minimum is None:
+                return decoder.read_unconstrained_whole_number()
+            else:
+                return (decoder.read_semi_constrained_whole_number()
+                        + self.minimum)
         else:
             if self.number_of_indefinite_bits is None:
                 number_of_bits = self.number_of_bits
